@@ -208,3 +208,18 @@ Theorem delivered_consistent cfg chunks f' outs :
 Proof.
   intros H. destruct (framing_any_stream _ _ _ _ H) as (-> & _). apply split_stream_consistent.
 Qed.
+
+(* a connection reset while the reader waits: same deliveries, the face shuts down, buffered bytes stay unread *)
+Theorem reset_any_stream cfg chunks f' outs :
+  catch_reset cfg = true ->
+  run_events cfg face_init (map Feed chunks ++ [Reset]) = (f', outs) ->
+  concat outs = fst (packets_of (concat chunks)) /\ f_running f' = false /\ f_co f' = CFinished /\ f_closed f' = true.
+Proof.
+  intros Hcfg H.
+  destruct (run_events cfg face_init (map Feed chunks)) as [f1 o1] eqn:E1.
+  destruct (framing_any_stream _ _ _ _ E1) as (Ho & Hr & m & Hm).
+  destruct (run_events cfg f1 [Reset]) as [f2 o2] eqn:E2.
+  rewrite (run_events_app cfg _ _ _ _ _ _ _ E1 E2) in H. inversion H; subst f' outs. clear H.
+  cbn [run_events step] in E2. rewrite Hm in E2. unfold raise_in_run in E2. rewrite Hcfg in E2.
+  inversion E2; subst. rewrite concat_app. cbn [concat]. rewrite !app_nil_r. repeat split; [exact Ho].
+Qed.
